@@ -235,6 +235,9 @@ fn rotate(
         _ => false, // Only case that can actually happen is (None, None)
     };
 
+    // the window may reach beyond u32::MAX
+    let base = u64::from(base);
+    let count = u64::from(count);
     for i in (base..base + (count - 1)).rev() {
         let src = expand_env_vars(pattern.replace("{}", &i.to_string()));
         let dst = expand_env_vars(pattern.replace("{}", &(i + 1).to_string()));
